@@ -844,7 +844,20 @@ func (r *Run) genBatch(c *client) *BatchSpec {
 			break
 		}
 		used[id] = true
-		b.Ops = append(b.Ops, mk(kindOf(), id, i))
+		kind := kindOf()
+		if kind == OpInsert && !r.p.DupProbe && t.Chance(1, 8, "op.insdel") {
+			// Insert and Delete of one id in one batch, in either order: the
+			// batch names the id once; it removes older copies and adds its
+			// own document, whatever the order of the two calls
+			if t.Chance(1, 2, "op.insdel.order") {
+				b.Ops = append(b.Ops, mk(OpDelete, id, len(b.Ops)), mk(OpInsert, id, len(b.Ops)+1))
+			} else {
+				b.Ops = append(b.Ops, mk(OpInsert, id, len(b.Ops)), mk(OpDelete, id, len(b.Ops)+1))
+			}
+			r.probe("insert-and-delete-of-one-id-in-a-batch")
+			continue
+		}
+		b.Ops = append(b.Ops, mk(kind, id, len(b.Ops)))
 	}
 	return b
 }
